@@ -115,8 +115,10 @@ impl<'p> Machine<'p> {
             }
             VmKind::Fixed(a, b) => {
                 let len = a.max(b) + 8;
+                // the bytes of the internal buffer other than the two pointer slots: no property says
+                // what a freshly (re)loaded VM holds there (zero today) - undefined for the model
                 if mb.len() != len {
-                    mb = vec![Cell::Def(0); len];
+                    mb = vec![Cell::Undef; len];
                 }
                 for k in 0..8 {
                     mb[a + k] = Cell::PtrPart(Region::Packet, 0, k as u8);
